@@ -92,6 +92,10 @@ func VH_C19_args() {
 // vhC19UseAll drives the public calls against a (possibly damaged)
 // collection; none may panic.
 func vhC19UseAll(label string, db *DB, uuid string) {
+	if vChoice("_use", 2) == 1 {
+		vhC19UseMore(label, db, uuid)
+		return
+	}
 	panicked := vCatch(func() {
 		db.Schema(&vObj{})
 		db.GetByUUID(&vObj{}, uuid)
@@ -113,6 +117,36 @@ func vhC19UseAll(label string, db *DB, uuid string) {
 		db.Repair(&vObj{})
 		db.Control()
 		db.Create(&vObj{}, DefaultSchema)
+		db.Close()
+	})
+	vAssert(label, !panicked)
+}
+
+// vhC19UseMore: the enumerating, batch and bulk-deleting entry points.
+func vhC19UseMore(label string, db *DB, uuid string) {
+	panicked := vCatch(func() {
+		g := &vObj{}
+		g.Initialize(uuid)
+		db.Get(g)
+		db.Exist(g)
+		var all []*vObj
+		db.AssignAll(&vObj{}, &all)
+		s := db.Search(&vObj{}, "A", "<=", int64(100)).And("S", "!=", "zz").Or("U", ">", uint64(0))
+		s.Reverse().Limit(1).Collect()
+		s.One()
+		db.InsertOrUpdateMany(&vObj{A: 10, S: "m1"}, &vObj{A: 11, S: "m2"})
+		db.FlushAll(&vObj{})
+		db.Search(&vObj{}, "A", "=", int64(3)).Delete()
+		if it, err := db.Search(&vObj{}, "S", "~=", "s").Iterator(); err == nil && it != nil {
+			db.DeleteObjects(it)
+		}
+		if it, err := db.Iterator(&vObj{}); err == nil && it != nil {
+			db.DeleteObjects(it)
+		}
+		db.DeleteAll(&vObj{})
+		db.Count(&vObj{})
+		db.Commit(&vObj{})
+		db.FlushAllAndCommit(&vObj{})
 		db.Close()
 	})
 	vAssert(label, !panicked)
